@@ -20,16 +20,20 @@ extern "C" { int nondet_int(); }
 static MgrNode *g_node; static int g_find_id; static Severity g_read_sev; static int g_read_calls;
 static MgrNode *g_nodes[4]; static int g_count; static int g_write_calls; static SDAI_Application_instance *g_written[4];
 static MgrNode *verif_FindFileId(InstMgr *, int id) { g_find_id = id; return g_node; }
-static Severity verif_inst_STEPread(SDAI_Application_instance *, int, int, InstMgr *, istream &, const char *, bool, bool) { g_read_calls++; return g_read_sev; }
-static void verif_inst_STEPwrite(SDAI_Application_instance *se, ostream &, const char *, int) { if (g_write_calls < 4) g_written[g_write_calls] = se; g_write_calls++; }
+static int g_read_id, g_read_incr; static InstMgr *g_read_mgr;
+static Severity verif_inst_STEPread(SDAI_Application_instance *, int id, int incr, InstMgr *im, istream &, const char *, bool, bool) { g_read_calls++; g_read_id = id; g_read_incr = incr; g_read_mgr = im; return g_read_sev; }
+static int g_max_id; static int verif_MaxFileId(InstMgr *) { return g_max_id; }
+/* the instance writer is called non-virtually (textual qualification, cbmc cannot dispatch virtual calls) and recorded */
+void SDAI_Application_instance::STEPwrite(ostream &, const char *, int) { if (g_write_calls < 4) g_written[g_write_calls] = this; g_write_calls++; }
 static MgrNode *verif_GetMgrNode(InstMgr *, int i) { return g_nodes[i]; }
 static int verif_InstanceCount(InstMgr *) { return g_count; }
+#include <math.h>
 #include "stepfile_extract.inc"
+#include "stepfile_inline_extract.inc"
 #include "src/clutils/errordesc.cc"
 #include "verif.h"
 
 int MgrNode::ChangeState(stateEnum s) { currState = s; return 1; }
-int STEPfile::IncrementFileId(int fileid) { return fileid; }
 std::string STEPfile::schemaName() { return std::string("s"); }
 static int g_int_value;
 namespace std { istream &istream::operator>>(int &v) { v = g_int_value; return *this; } }
